@@ -283,6 +283,75 @@ def check_io_history(case, R):
         shutil.rmtree(d, ignore_errors=True)
 
 
+# ---- histories that overwrite files: the read of a path returns what was LAST saved there
+
+OVERWRITE_CFGS = {
+    "tif": (([2, 3, 1], "uint8", "tif-zlib", None, "default", "class", "ndarray", "ramp"),
+            ([2, 3, 1], "uint8", "tif-zlib", None, "default", "class", "ndarray", "extremes"),
+            ([3, 2, 2, 3], "float32", "tif-raw", None, "default", "class", "ndarray", "ramp")),
+    "npy": (([2, 3, 1], "uint8", "npy", None, "default", "class", "ndarray", "ramp"),
+            ([2, 3, 1], "uint8", "npy", None, "default", "class", "ndarray", "extremes"),
+            ([3, 2, 2, 3], "float32", "npy", None, "float32", "class", "ndarray", "ramp")),
+    "nrrd": (([2, 3, 1], "float32", "nrrd", None, "default", "class", "ndarray", "ramp"),
+             ([2, 3, 1], "float32", "nrrd", None, "default", "class", "ndarray", "extremes"),
+             ([3, 2, 2], "uint8", "nrrd", None, "default", "class", "ndarray", "ramp")),
+}
+OVERWRITE_EVENTS = [("save", c, p) for c in range(3) for p in range(2)] + [("read", None, p) for p in range(2)]
+
+
+def overwrite_cases(depth):
+    """Every event sequence up to `depth` over {save cfg c to path p, read path p} (2 paths, 3 stacks per format) that starts with
+    a save, ends with a read and never reads a path nothing was saved to.  Sequences are NOT merged by file content: what the
+    library remembers from earlier reads is exactly what is being explored."""
+    for ext in OVERWRITE_CFGS:
+        for L in range(2, depth + 1):
+            for seq in itertools.product(range(len(OVERWRITE_EVENTS)), repeat=L):
+                if OVERWRITE_EVENTS[seq[0]][0] != "save" or OVERWRITE_EVENTS[seq[-1]][0] != "read":
+                    continue
+                saved, ok, reads = set(), True, 0
+                for e in seq:
+                    kind, c, p = OVERWRITE_EVENTS[e]
+                    if kind == "save":
+                        saved.add(p)
+                    elif p not in saved:
+                        ok = False
+                        break
+                    else:
+                        reads += 1
+                if ok:
+                    yield [ext, list(seq)]
+
+
+def check_overwrite(case, R):
+    ext, seq = case[0], [int(e) for e in case[1]]
+    cfgs = OVERWRITE_CFGS[ext]
+    R.state(ext, tuple(seq))
+    d = tempfile.mkdtemp(prefix="c20ow")
+    try:
+        paths = [os.path.join(d, f"p{k}." + ext) for k in range(2)]
+        last = {}
+        live = []
+        for pos, e in enumerate(seq):
+            kind, c, p = OVERWRITE_EVENTS[e]
+            if kind == "save":
+                cfg = tuple(cfgs[c])
+                M = io_model(cfg)
+                if not io_save(R, cfg, M, paths[p]):
+                    return
+                last[p] = (cfg, M)
+            else:
+                cfg, M = last[p]
+                res = io_read(R, cfg, M, paths[p], f"overwrite history {ext} {[OVERWRITE_EVENTS[x] for x in seq[:pos + 1]]}: ")
+                if res is None:
+                    return
+                live.append((res[1], res[1].copy(), cfg, M))
+        for arr, first, cfg, M in live:
+            R.check(np.array_equal(arr, first), "read:result-changed-by-later-calls", lambda: f"overwrite history {case}: an array read earlier changed afterwards")
+        R.outcome(ext, tuple(OVERWRITE_EVENTS[e][1] for e in seq if OVERWRITE_EVENTS[e][0] == "save"), sum(1 for e in seq if OVERWRITE_EVENTS[e][0] == "read"))
+    finally:
+        shutil.rmtree(d, ignore_errors=True)
+
+
 # =================================================================== part 2: raster
 
 
@@ -710,6 +779,8 @@ def spaces(tier, seed):
     else:
         sizes, st_hi, lt_hi, banks, hist_depth = (1, 2, 3, 4), 6, 5, (0, 1, 2, 3), 3
 
+    ow_depth = 4 if tier == "quick" else 5
+
     def io_hist():
         for seq in itertools.product(range(len(HISTORY_CFGS)), repeat=hist_depth):
             yield list(seq)
@@ -723,6 +794,9 @@ def spaces(tier, seed):
         Space.of("save-load-history", io_hist, check_io_history,
                  bounds={"configurations": len(HISTORY_CFGS), "sequence_length": hist_depth,
                          "history": "save all, then read all in order and the first again; earlier arrays re-inspected"}),
+        Space.of("save-load-overwrite", lambda: overwrite_cases(ow_depth), check_overwrite,
+                 bounds={"formats": list(OVERWRITE_CFGS), "paths": 2, "stacks_per_format": 3, "events": [list(map(str, e)) for e in OVERWRITE_EVENTS],
+                         "sequence_length": f"2..{ow_depth}", "oracle": "a read returns the stack last saved to that path (shape and values)"}),
         Space.of("save-load-fresh-process", lambda: (list(q) for q in itertools.permutations(FRESH_CFGS, 2 if tier == "quick" else 3)), check_fresh,
                  bounds={"configurations": [list(HISTORY_CFGS[i]) for i in FRESH_CFGS], "sequence_length": 2 if tier == "quick" else 3,
                          "history": "every ordered sequence of distinct configurations, each in a new interpreter"}),
